@@ -146,6 +146,8 @@ def evalC (c : Ctx) : Cond → Option Bool
     match (c.resolve p).posLine, (c.resolve q).endLine with
     | some a, some b => some (a == b)
     | _, _ => none
+  | .isKind p k => if (c.resolve p).kind == "?" then none else some ((c.resolve p).kind == k)
+  | .tt => some true
   | .and a b =>
     match evalC c a with
     | some true => evalC c b
@@ -245,5 +247,130 @@ def expandItem : Item → List Ev
   | .recE l => evEs (abstrEs l)
 
 def expand (is : List Item) : List Ev := is.flatMap expandItem
+
+/-! ## the control-statement pass (`processControlStatements`, an `ast.Inspect` callback) -/
+
+/-- line of a `token.Pos` field -/
+def GVal.tokLine (v : GVal) (tok : String) : Option Nat :=
+  match v with
+  | .stmt (.ifS l ..) => if tok == "If" then some l else none
+  | .stmt (.forS l ..) => if tok == "For" then some l else none
+  | .stmt (.rangeS l ..) => if tok == "For" then some l else none
+  | .stmt (.switchS l ..) => if tok == "Switch" then some l else none
+  | .stmt (.typeSwitchS l ..) => if tok == "Switch" then some l else none
+  | .stmt (.selectS l ..) => if tok == "Select" then some l else none
+  | .stmt (.caseC l _ _ _ colon _) => if tok == "Case" then some l else if tok == "Colon" then some colon else none
+  | .stmt (.commC l _ _ _ colon _) => if tok == "Case" then some l else if tok == "Colon" then some colon else none
+  | .stmt (.block l ..) => if tok == "Lbrace" then some l else none
+  | .block lb rb _ => if tok == "Lbrace" then some lb else if tok == "Rbrace" then some rb else none
+  | _ => none
+
+/-- events, value of `changed` afterwards, `break` executed -/
+abbrev CRes := Option (List Ev × Bool × Bool)
+
+/-- iterations of a loop inside an arm: they do not assign `changed` and do not `break` -/
+def joinC (changed : Bool) : List CRes → CRes
+  | [] => some ([], changed, false)
+  | none :: _ => none
+  | some (es, ch', br) :: r =>
+    if ch' != changed || br then none
+    else match joinC changed r with
+      | none => none
+      | some (fs, c2, b2) => some (es ++ fs, c2, b2)
+
+mutual
+def evalCA (ch : Nat → Bool) (c : Ctx) (changed : Bool) : CAct → CRes
+  | .breakIf cd => (evalC c cd).map fun b => ([], changed, b)
+  | .setLine p tok => ((c.resolve p).tokLine tok).map fun l => ([], ch l, false)
+  | .orRange cd p q =>        -- `!changed && cd` is evaluated without the short cut on `changed` (conditions are pure)
+    match evalC c cd with
+    | none => none
+    | some false => some ([], changed, false)
+    | some true =>
+      match (c.resolve p).posLine, (c.resolve q).endLine with
+      | some a, some b => some ([], changed || rngChanged ch (some (a, b)), false)
+      | _, _ => none
+  | .orAnyRange cd l =>
+    match evalC c cd with
+    | none => none
+    | some false => some ([], changed, false)
+    | some true =>
+      match c.resolve l with
+      | .exprs es => some ([], changed || es.any (fun e => rngChanged ch (some e.rng)), false)
+      | _ => none
+  | .ifChanged cd body =>      -- the body is evaluated in any case (it is pure); its events count when `changed`
+    match evalC c cd with
+    | none => none
+    | some false => some ([], changed, false)
+    | some true =>
+      match evalCL ch c changed body with
+      | none => none
+      | some (es, c2, b2) => some (if changed then es else [], if changed then c2 else changed, changed && b2)
+  | .force p tok => ((c.resolve p).tokLine tok).map fun l => ([.force (l + 1)], changed, false)
+  | .guard cd body =>
+    match evalC c cd with
+    | none => none
+    | some false => some ([], changed, false)
+    | some true => evalCL ch c changed body
+  | .each p v body =>
+    match (c.resolve p).elems with
+    | none => none
+    | some els => joinC changed (els.map fun x => evalCL ch { c with vars := (v, x) :: c.vars } changed body)
+def evalCL (ch : Nat → Bool) (c : Ctx) (changed : Bool) : List CAct → CRes
+  | [] => some ([], changed, false)
+  | a :: r =>
+    match evalCA ch c changed a with
+    | none => none
+    | some (es, ch', true) => some (es, ch', true)
+    | some (es, ch', false) =>
+      match evalCL ch c ch' r with
+      | none => none
+      | some (fs, c2, b2) => some (es ++ fs, c2, b2)
+end
+
+def evalCArms (ch : Nat → Bool) (c : Ctx) (k : String) : List (List String × List CAct) → CRes
+  | [] => some ([], false, false)
+  | (ks, body) :: r => if ks.contains k || ks.contains "*" then evalCL ch c false body else evalCArms ch c k r
+
+/-- the callback on one node: `var changed bool; switch n := n.(type) { … }; return true` -/
+def inspect (w : Inspector) (ch : Nat → Bool) (v : GVal) : Option (List Ev) :=
+  match evalCArms ch ⟨v, []⟩ v.kind w.arms with
+  | some (es, _, _) => some es
+  | none => none
+
+/-! the model's control pass, split into the node's own forced marks and the visit of its children -/
+
+@[simp] theorem rngChanged_none (ch : Nat → Bool) : rngChanged ch none = false := rfl
+
+def elseForce : List Stmt → List Ev
+  | [.block bl _ b] => if b.isEmpty then [] else [Ev.force (bl + 1)]
+  | _ => []
+
+def ctlHead (ch : Nat → Bool) : Stmt → List Ev
+  | .ifS l _ _ initR condR _ lb _ _ els =>
+    if ch l || rngChanged ch initR || rngChanged ch condR then Ev.force (lb + 1) :: elseForce els else []
+  | .forS l _ _ initR condR postR _ _ lb _ _ =>
+    if ch l || rngChanged ch initR || rngChanged ch condR || rngChanged ch postR then [Ev.force (lb + 1)] else []
+  | .rangeS l _ keyR valR xR _ lb _ _ =>
+    if ch l || rngChanged ch keyR || rngChanged ch valR || rngChanged ch xR then [Ev.force (lb + 1)] else []
+  | .switchS l _ _ initR tagR _ _ _ cl => if ch l || rngChanged ch initR || rngChanged ch tagR then clauseForces cl else []
+  | .typeSwitchS l _ _ initR asgR _ _ _ cl => if ch l || rngChanged ch initR || rngChanged ch asgR then clauseForces cl else []
+  | .caseC l _ listR _ colon _ => if ch l || listR.any (fun r => rngChanged ch (some r)) then [Ev.force (colon + 1)] else []
+  | .commC l _ commR _ colon _ => if ch l || rngChanged ch commR then [Ev.force (colon + 1)] else []
+  | _ => []
+
+/-- the children in `ast.Walk` order (go/ast's traversal, as the extractor reports it) -/
+def ctlKids (ch : Nat → Bool) : Stmt → List Ev
+  | .simple _ _ _ pre ent post => ctlEs ch pre ++ ctlEs ch ent ++ ctlEs ch post
+  | .block _ _ body => ctlL ch body
+  | .labeled _ _ inner => ctlS ch inner
+  | .ifS _ _ init _ _ cond _ _ body els => ctlL ch init ++ ctlEs ch cond ++ ctlL ch body ++ ctlL ch els
+  | .forS _ _ init _ _ _ cond post _ _ body => ctlL ch init ++ ctlEs ch cond ++ ctlL ch post ++ ctlL ch body
+  | .rangeS _ _ _ _ _ kvx _ _ body => ctlEs ch kvx ++ ctlL ch body
+  | .switchS _ _ init _ _ tag _ _ cl => ctlL ch init ++ ctlEs ch tag ++ ctlL ch cl
+  | .typeSwitchS _ _ init _ _ asg _ _ cl => ctlL ch init ++ ctlL ch asg ++ ctlL ch cl
+  | .selectS _ _ _ _ cl => ctlL ch cl
+  | .caseC _ _ _ list _ body => ctlEs ch list ++ ctlL ch body
+  | .commC _ _ _ comm _ body => ctlL ch comm ++ ctlL ch body
 
 end GoatSpec.WalkSpec
